@@ -127,7 +127,9 @@ pub fn cmd_reader() {
             // the second frame starts where the first one ended (a whole frame is consumed, no more)
             let flen = if bytes.first().map_or(false, |b| b & 0x80 != 0) { 14 } else { 7 };
             if rd.pos != prefix + flen {
-                o = json!({"ok": 4, "consumed": rd.pos - prefix});
+                // (the checksum the first decode reported stays in the record: it is judged on its own)
+                let crc = o.get("crc").cloned().unwrap_or(json!(-1));
+                o = json!({"ok": 4, "consumed": rd.pos - prefix, "crc": crc});
                 outcome = "misaligned";
             } else {
                 let r2 = catch_unwind(AssertUnwindSafe(|| Frame::from_reader(&mut rd)));
